@@ -712,6 +712,12 @@ def describe(I, st, v, depth=0):
     if isinstance(v, StrV):
         return repr(v.s) if not isinstance(v.s, bytes) else repr(v.s)
     if isinstance(v, Seq):
+        if "segs" in v.attrs and v.attrs["segs"][2] is None:
+            # "segment i up to the end" is segment i once the segment count is known to be i + 1
+            p_, i_, _j = v.attrs["segs"]
+            lo_, hi_ = st.bounds.get("len(%s)" % p_, (1, LEN_MAX))
+            if hi_ == i_ + 1:
+                return "%s[%d]" % (p_, i_)
         if "b64_of" in v.attrs:
             eng = v.attrs.get("engine", "")
             return "b64%s(%s)" % ("" if "URL_SAFE_NO_PAD" in eng else "[%s]" % eng, describe(I, st, v.attrs["b64_of"], depth + 1))
@@ -1516,14 +1522,14 @@ def m_try_from(I, st, info, args, depth):
             if b.get("name") == "try_from" and b.get("impl_trait", "").startswith("core::convert::TryFrom<") and M.decode_typenum(b.get("impl_self", "")) == tgt:
                 return list(I._call_body(st, b, args, depth + 1))
     # &[u8] -> &[u8; N]  /  [u8; N]
-    m = re.search(r"<&\[u8; (\d+)\] as core::convert::TryFrom<&\[u8\]>>|<\[u8; (\d+)\] as core::convert::TryFrom<&\[u8\]>>|TryFrom<&'a \[T\]> for &'a \[T; N\]", nm + " " + info["def"])
+    m = re.search(r"<&\[u8; (\d+)\] as core::convert::TryFrom<&\[u8\]>>|<\[u8; (\d+)\] as core::convert::TryFrom<&\[u8\]>>|TryFrom<&'a \[T\]> for &'a \[T; N\]|<&\[u8\] as core::convert::TryInto<&?\[u8; (\d+)\]>>", nm + " " + info["def"])
     mm = re.search(r"\[u8; (\d+)\]", nm)
     if m and mm:
         n = int(mm.group(1))
         s_ = seq_of(I, st, args[0])
         out = []
         for s2, t in fork_bool(I, st, I.compare(st, "Eq", s_.length, Aff(n))):
-            out.append((s2, "return", ok(Seq(s_.name, Aff(n), kind="array")) if t else err(Sym("TryFromSliceError"))))
+            out.append((s2, "return", ok(Seq(s_.name, Aff(n), s_.elems, s_.chunks, dict(s_.attrs), "array")) if t else err(Sym("TryFromSliceError"))))
         return out
     if "Signature" in nm or "signature" in nm:
         return result_fork(I, st, Sym("signature object"), "signature::Error", "signature parse")
@@ -1893,3 +1899,4 @@ _prioritise({"m_collect_map", "m_iter_map", "m_iter_lossy", "m_map_iter", "m_sli
 
 # concrete collections / lazy iterators (registered in front of the models above; they decline unless the receiver is concrete)
 from . import models_iter  # noqa: E402,F401
+from . import models_str  # noqa: E402,F401   strings with separator structure (split_once / contains / prefix slicing)
